@@ -43,7 +43,9 @@ package network
 //@   at return assert #escalate-is-the-child-step err == nil && action == "escalateAction" ==> nextPriv == level(d, mapTo[1]).Name && prevOf(d, mapTo[1]) == current && soundPath(d, mapTo, current, target)
 //@   at return assert #deescalate-is-the-parent-step err == nil && action == "deescalateAction" ==> nextPriv == current && prevOf(d, current) == mapTo[1] && soundPath(d, mapTo, current, target)
 
+//@ secret [C11] Driver.AuthSecondary readers (*Driver).escalate
 //@ func (*Driver).escalate [C04 C11 C12]
+//@   flows [C11] #secondary-secret-goes-only-into-the-hidden-event d.AuthSecondary only to store:SendInteractiveEvent.ChannelInput
 //@   requires RI(d.Channel.Q) && d.Channel.PromptSearchDepth >= 0
 //@   ensures RI(d.Channel.Q)
 //@   modifies wire, rd, sent, quiet, echoed, optlog, alloc(), all(util.Queue.queue), all(util.Queue.depth), chans()
